@@ -8,6 +8,13 @@
 //!   tmtproc <plex> level rawLevel deisotope maxPeaks (0 | 1 charge) [n (mz(f32) intensity(f32))…]  ->  [n row…]
 //!       the runner's pipeline on one RAW spectrum: min_deisotope_mz as in runner.rs (source-text tie),
 //!       SpectrumProcessor::new(maxPeaks, deisotope, min_deisotope_mz.unwrap_or(0.0)).process(raw), tmt::quantify
+//!   tmtrun <plex> level sn deisotope maxPeaks batch [nfiles [n rspec…]…]  ->  [n row…]
+//!       rspec = level id(hex) inj(f32) [n (mz(f32) (0|1 charge) (0|1 ref(hex)))…] [n (mz(f32) int(f32))…] [m noise(f32)…]
+//!       THE REAL RUNNER: the spectra are written as mzML files into a private temp dir, a real
+//!       `sage_cli::runner::Runner` is built with quant.tmt = plex, tmt_settings = {level, sn}, deisotope,
+//!       max_peaks, and `Runner::batch_files` is called; the reply is `SageResults::quant`
+//!       (read_processed_spectra: sn, min_deisotope_mz, SpectrumProcessor, mzML reader, process;
+//!        complete_features: tmt::quantify with the runner's tolerance)
 //!   tmtguard <plex> level  ->  (0 | 1 min_deisotope_mz) [n upper-edge(f32)…]
 //!   tmtconsts  ->  for t6,t10,t11,t16,t18: [n f32…]; PROTON; and, read from the text of
 //!                  sage-cli/src/runner.rs: ppmLo ppmHi (quantify call) c1 c2 (min_deisotope_mz factor) level form(last|max)
@@ -19,7 +26,7 @@ use sage_core::spectrum::{
 };
 use sage_core::tmt::{quantify, Isobaric};
 
-pub const OPS: &[&str] = &["tmt", "selpeak", "tmtconsts", "tmtguard", "tmtproc"];
+pub const OPS: &[&str] = &["tmt", "selpeak", "tmtconsts", "tmtguard", "tmtproc", "tmtrun"];
 pub const INFO: Info = Info {
     rule: "tmt: plex in {6,10,11,16,18,user-defined (0-6 masses, sorted or not, some 6 mDa apart, some with \
            overlapping windows)} x quant level (mostly 2/3, also 0/1/4) x 0-6 spectra of mixed levels (ids, file ids, \
@@ -39,7 +46,14 @@ pub const INFO: Info = Info {
            24-44 ppm outside, neighbours one neutron/z (z 1-2) above/below reporters at 0.25-4x the intensity, peaks in \
            the 1.2 Th right above the heaviest channel, fragment isotope clusters (z 1-3) above the region; no peak \
            within 17-23 ppm of a channel (spec exact); quant/raw level (2,2) mostly, (3,3), mismatches; deisotope on 5/6; \
-           max_peaks >= number of peaks, except a 10% small-max_peaks stream (spec na). tmtconsts: one case (tables, plex \
+           max_peaks >= number of peaks, except a 10% small-max_peaks stream (spec na). tmtrun (THE REAL Runner::batch_files over mzML files written \
+           to a temp dir): every built-in plex x 3 intensity patterns at MS2 with deisotoping; a directed file with MS3 \
+           before its MS2, MS3 scans sharing / lacking / mis-referencing an MS2, a zero-m/z precursor, escaped ids, an MS2 \
+           without reporter peaks, at level 2/3 x sn on/off, and as two files x batch 1/2; random: 1-2 files of 0-3 \
+           cycles (MS1?, MS2, 0-3 MS3; shuffled 1/3), id styles (controllerType…scan=N, scan=N, N, index=N, XML-special \
+           characters), quant level 2/3 (1/4 rarely), sn 2/5 with noise arrays on half the spectra (sometimes shorter), \
+           deisotope 5/6, batch 1-3, max_peaks >= largest spectrum except a small-max_peaks stream (spec na). \
+           tmtconsts: one case (tables, plex \
            slices, runner.rs constants). tmtguard: every built-in plex x level 0-4, plus user-defined plexes (1-8 \
            masses): ascending, shuffled except for the last element, and fully shuffled (the heaviest mass anywhere).",
     serial: false,
@@ -351,6 +365,254 @@ fn exec_guard(t: &mut Toks) -> Option<String> {
     Some(o.finish())
 }
 
+// ------------------------------------------------------------------------------------------ tmtrun (real Runner)
+
+#[derive(Clone)]
+struct RPrec {
+    mz: f32,
+    charge: Option<u8>,
+    sref: Option<String>,
+}
+
+#[derive(Clone)]
+struct RSpec {
+    level: u8,
+    id: String,
+    inj: f32,
+    precs: Vec<RPrec>,
+    peaks: Vec<(f32, f32)>,
+    noise: Vec<f32>,
+}
+
+fn write_rspec(o: &mut Out, s: &RSpec) {
+    o.n(s.level).s(&s.id).f32(s.inj).n(s.precs.len());
+    for p in &s.precs {
+        o.f32(p.mz);
+        match p.charge {
+            None => o.n(0),
+            Some(z) => o.n(1).n(z),
+        };
+        match &p.sref {
+            None => o.n(0),
+            Some(r) => o.n(1).s(r),
+        };
+    }
+    o.n(s.peaks.len());
+    for &(m, i) in &s.peaks {
+        o.f32(m).f32(i);
+    }
+    o.n(s.noise.len());
+    for &x in &s.noise {
+        o.f32(x);
+    }
+}
+
+fn read_rspec(t: &mut Toks) -> Option<RSpec> {
+    let level = t.usize()?;
+    if level == 0 || level > 9 {
+        return None;
+    }
+    let id = t.string()?;
+    let inj = t.f32()?;
+    let precs = t.list(|t| {
+        let mz = t.f32()?;
+        let charge = t.opt(|t| t.usize())?.map(|z| z as u8);
+        let sref = t.opt(|t| t.string())?;
+        Some(RPrec { mz, charge, sref })
+    })?;
+    let peaks = t.list(|t| Some((t.f32()?, t.f32()?)))?;
+    let noise = t.list(|t| t.f32())?;
+    Some(RSpec { level: level as u8, id, inj, precs, peaks, noise })
+}
+
+fn run_request(plex: &Plex, level: usize, sn: bool, deiso: bool, max_peaks: usize, batch: usize, files: &[Vec<RSpec>]) -> String {
+    let mut o = Out::new();
+    o.raw("tmtrun");
+    plex.write(&mut o);
+    o.n(level).b(sn).b(deiso).n(max_peaks).n(batch).n(files.len());
+    for f in files {
+        o.n(f.len());
+        for s in f {
+            write_rspec(&mut o, s);
+        }
+    }
+    o.finish()
+}
+
+fn xml_attr(v: &str) -> String {
+    let mut s = String::new();
+    for c in v.chars() {
+        match c {
+            '&' => s.push_str("&amp;"),
+            '<' => s.push_str("&lt;"),
+            '>' => s.push_str("&gt;"),
+            '"' => s.push_str("&quot;"),
+            '\'' => s.push_str("&apos;"),
+            c => s.push(c),
+        }
+    }
+    s
+}
+
+fn b64_f32(xs: &[f32]) -> String {
+    let mut b = Vec::with_capacity(xs.len() * 4);
+    for x in xs {
+        b.extend_from_slice(&x.to_le_bytes());
+    }
+    base64::encode(b)
+}
+
+/// a minimal mzML document: 32-bit uncompressed arrays (bit-exact), centroid, every number printed with
+/// Rust's shortest round-trip formatting
+fn mzml_text(specs: &[RSpec]) -> String {
+    let mut x = String::from("<?xml version=\"1.0\" encoding=\"utf-8\"?>\n<mzML><run id=\"r\"><spectrumList count=\"0\">\n");
+    for (i, s) in specs.iter().enumerate() {
+        x.push_str(&format!("<spectrum index=\"{}\" id=\"{}\" defaultArrayLength=\"{}\">\n", i, xml_attr(&s.id), s.peaks.len()));
+        x.push_str(&format!("<cvParam cvRef=\"MS\" accession=\"MS:1000511\" name=\"ms level\" value=\"{}\"/>\n", s.level));
+        x.push_str("<cvParam cvRef=\"MS\" accession=\"MS:1000127\" name=\"centroid spectrum\" value=\"\"/>\n");
+        x.push_str("<scanList count=\"1\"><scan>");
+        x.push_str("<cvParam cvRef=\"MS\" accession=\"MS:1000016\" name=\"scan start time\" value=\"1.5\" unitAccession=\"UO:0000031\"/>");
+        x.push_str(&format!("<cvParam cvRef=\"MS\" accession=\"MS:1000927\" name=\"ion injection time\" value=\"{}\"/>", s.inj));
+        x.push_str("</scan></scanList>\n");
+        if !s.precs.is_empty() {
+            x.push_str(&format!("<precursorList count=\"{}\">", s.precs.len()));
+            for p in &s.precs {
+                match &p.sref {
+                    Some(r) => x.push_str(&format!("<precursor spectrumRef=\"{}\">", xml_attr(r))),
+                    None => x.push_str("<precursor>"),
+                }
+                x.push_str("<selectedIonList count=\"1\"><selectedIon>");
+                x.push_str(&format!("<cvParam cvRef=\"MS\" accession=\"MS:1000744\" name=\"selected ion m/z\" value=\"{}\"/>", p.mz));
+                if let Some(z) = p.charge {
+                    x.push_str(&format!("<cvParam cvRef=\"MS\" accession=\"MS:1000041\" name=\"charge state\" value=\"{}\"/>", z));
+                }
+                x.push_str("</selectedIon></selectedIonList></precursor>");
+            }
+            x.push_str("</precursorList>\n");
+        }
+        x.push_str("<binaryDataArrayList count=\"3\">\n");
+        let arr = |x: &mut String, acc: &str, data: &[f32]| {
+            x.push_str("<binaryDataArray encodedLength=\"0\"><cvParam cvRef=\"MS\" accession=\"MS:1000521\" name=\"32-bit float\"/>");
+            x.push_str("<cvParam cvRef=\"MS\" accession=\"MS:1000576\" name=\"no compression\"/>");
+            x.push_str(&format!("<cvParam cvRef=\"MS\" accession=\"{}\" name=\"array\"/>", acc));
+            x.push_str(&format!("<binary>{}</binary></binaryDataArray>\n", b64_f32(data)));
+        };
+        let mz: Vec<f32> = s.peaks.iter().map(|p| p.0).collect();
+        let it: Vec<f32> = s.peaks.iter().map(|p| p.1).collect();
+        arr(&mut x, "MS:1000514", &mz);
+        arr(&mut x, "MS:1000515", &it);
+        if !s.noise.is_empty() {
+            arr(&mut x, "MS:1002744", &s.noise);
+        }
+        x.push_str("</binaryDataArrayList>\n</spectrum>\n");
+    }
+    x.push_str("</spectrumList></run></mzML>\n");
+    x
+}
+
+struct TempDir(std::path::PathBuf);
+impl TempDir {
+    fn new() -> Self {
+        static N: std::sync::atomic::AtomicUsize = std::sync::atomic::AtomicUsize::new(0);
+        let n = N.fetch_add(1, std::sync::atomic::Ordering::Relaxed);
+        let t = std::time::SystemTime::now().duration_since(std::time::UNIX_EPOCH).map(|d| d.as_nanos()).unwrap_or(0);
+        let p = std::env::temp_dir().join(format!("sage-verif-c18-{}-{}-{}", std::process::id(), n, t));
+        std::fs::create_dir_all(&p).expect("temp dir");
+        TempDir(p)
+    }
+}
+impl Drop for TempDir {
+    fn drop(&mut self) {
+        let _ = std::fs::remove_dir_all(&self.0);
+    }
+}
+
+fn exec_run(t: &mut Toks) -> Option<String> {
+    use sage_cli::input::{QuantSettings, Search, TmtSettings};
+    use sage_cli::runner::Runner;
+    use sage_core::database::{Builder, EnzymeBuilder};
+    use sage_core::scoring::{ScoreType, Scorer};
+    let plex = Plex::read(t)?;
+    let level = t.usize()?;
+    if level > 255 {
+        return None;
+    }
+    let sn = t.bool()?;
+    let deiso = t.bool()?;
+    let max_peaks = t.usize()?;
+    let batch = t.usize()?;
+    let files = t.list(|t| t.list(read_rspec))?;
+    if !t.done() || batch == 0 || files.len() > 8 {
+        return None;
+    }
+    let dir = TempDir::new();
+    let fasta_path = dir.0.join("db.fasta");
+    std::fs::write(&fasta_path, ">sp|P1|ONE\nMKPEPTIDEKAAAAGGGGRLLLLVVVVK\n").ok()?;
+    let mut paths = Vec::new();
+    for (fi, f) in files.iter().enumerate() {
+        let p = dir.0.join(format!("file{fi}.mzML"));
+        std::fs::write(&p, mzml_text(f)).ok()?;
+        paths.push(p.to_string_lossy().to_string());
+    }
+    let mut dbp = Builder { fasta: Some(fasta_path.to_string_lossy().to_string()), ..Default::default() }.make_parameters();
+    dbp.enzyme = EnzymeBuilder { min_len: Some(5), max_len: Some(30), ..Default::default() };
+    dbp.peptide_min_mass = 300.0;
+    dbp.peptide_max_mass = 6000.0;
+    let search = Search {
+        version: "verif".into(),
+        database: dbp,
+        quant: QuantSettings {
+            tmt: Some(plex.real()),
+            tmt_settings: TmtSettings { level: level as u8, sn },
+            lfq: false,
+            lfq_settings: Default::default(),
+        },
+        precursor_tol: Tolerance::Ppm(-20.0, 20.0),
+        fragment_tol: Tolerance::Ppm(-10.0, 10.0),
+        precursor_charge: (2, 4),
+        override_precursor_charge: false,
+        isotope_errors: (0, 0),
+        deisotope: deiso,
+        chimera: false,
+        wide_window: false,
+        // no spectrum is searched: this op is about the quantification path only
+        min_peaks: usize::MAX,
+        max_peaks,
+        max_fragment_charge: None,
+        min_matched_peaks: 4,
+        report_psms: 1,
+        predict_rt: false,
+        mzml_paths: paths,
+        output_paths: Vec::new(),
+        bruker_config: Default::default(),
+        output_directory: sage_cloudpath::CloudPath::Local(dir.0.clone()),
+        write_pin: false,
+        annotate_matches: false,
+        score_type: ScoreType::SageHyperScore,
+    };
+    let runner = Runner::new(search, 1).ok()?;
+    let p = &runner.parameters;
+    let sc = Scorer {
+        db: &runner.database,
+        precursor_tol: p.precursor_tol,
+        fragment_tol: p.fragment_tol,
+        min_matched_peaks: p.min_matched_peaks,
+        min_isotope_err: p.isotope_errors.0,
+        max_isotope_err: p.isotope_errors.1,
+        min_precursor_charge: p.precursor_charge.0,
+        max_precursor_charge: p.precursor_charge.1,
+        override_precursor_charge: p.override_precursor_charge,
+        max_fragment_charge: p.max_fragment_charge,
+        chimera: p.chimera,
+        report_psms: p.report_psms,
+        wide_window: p.wide_window,
+        annotate_matches: p.annotate_matches,
+        score_type: p.score_type,
+    };
+    let res = runner.batch_files(&sc, batch);
+    Some(render_rows(&res.quant))
+}
+
 /// `tmtproc`: raw spectrum -> (runner's min_deisotope_mz) -> SpectrumProcessor::process -> tmt::quantify
 fn exec_proc(t: &mut Toks) -> Option<String> {
     let plex = Plex::read(t)?;
@@ -395,6 +657,7 @@ fn exec_proc(t: &mut Toks) -> Option<String> {
 pub fn exec(op: &str, t: &mut Toks) -> Option<String> {
     match op {
         "tmtproc" => exec_proc(t),
+        "tmtrun" => exec_run(t),
         "tmt" => exec_tmt(t),
         "selpeak" => exec_selpeak(t),
         "tmtconsts" => exec_consts(t),
@@ -703,6 +966,65 @@ fn rand_user_proc(rng: &mut Rng) -> Plex {
     Plex::User(v)
 }
 
+/// reporter-region content of one raw spectrum (m/z space): reporter peaks, second peaks in a window, peaks just
+/// outside, neutron/z neighbours, the stretch right above the heaviest channel, fragment isotope clusters
+fn rand_raw_peaks(rng: &mut Rng, labels: &[f32], user: bool, pattern: usize, all18: &[f32]) -> Vec<(f32, f32)> {
+    let mut aims: Vec<f32> = labels.to_vec();
+    if !user && rng.chance(1, 2) {
+        aims = all18.to_vec();
+    }
+    let n = aims.len();
+    let mut peaks: Vec<(f32, f32)> = Vec::new();
+    let mut reporters: Vec<(f32, f32)> = Vec::new();
+    for (i, &l) in aims.iter().enumerate() {
+        if rng.chance(1, 8) {
+            continue;
+        }
+        let off = (rng.unit() * 30.0 - 15.0) * 1.0e-6;
+        let mz = (l as f64 * (1.0 + off)) as f32;
+        let it = pattern_intensity(pattern, i, n, rng);
+        reporters.push((mz, it));
+        peaks.push((mz, it));
+        if rng.chance(1, 6) {
+            // a second peak in the same window
+            let off2 = (rng.unit() * 32.0 - 16.0) * 1.0e-6;
+            peaks.push(((l as f64 * (1.0 + off2)) as f32, it * *rng.pick(&[0.5f32, 1.0, 2.0])));
+        }
+        if rng.chance(1, 6) {
+            // just outside the window
+            let off3 = (24.0 + rng.unit() * 20.0) * 1.0e-6 * if rng.chance(1, 2) { 1.0 } else { -1.0 };
+            peaks.push(((l as f64 * (1.0 + off3)) as f32, it * *rng.pick(&[0.5f32, 1.0, 3.0])));
+        }
+    }
+    // neighbours one neutron/z above / below reporter peaks, smaller / equal / larger
+    for &(mz, it) in &reporters {
+        if rng.chance(1, 3) {
+            let z = 1 + rng.below(2);
+            let sgn = if rng.chance(1, 2) { 1.0 } else { -1.0 };
+            let jitter = (rng.unit() * 8.0 - 4.0) * 1.0e-6;
+            let m2 = ((mz as f64 + sgn * (NEUTRON as f64) / z as f64) * (1.0 + jitter)) as f32;
+            peaks.push((m2, it * *rng.pick(&[0.25f32, 0.5, 1.0, 2.0, 4.0])));
+        }
+    }
+    // the stretch right above the heaviest channel (first m/z that are NOT exempt)
+    if let Some(mx) = labels.iter().copied().reduce(f32::max) {
+        for _ in 0..rng.below(4) {
+            peaks.push(((mx as f64 * (1.0 + 23.0e-6) + rng.unit() * 1.2) as f32, rand_intensity(rng)));
+        }
+    }
+    // peptide-fragment isotope clusters above the reporter region
+    for _ in 0..rng.below(5) {
+        let base = 180.0 + rng.unit() * 1200.0;
+        let z = 1 + rng.below(3);
+        let mut it = 100.0 + rng.unit() * 5000.0;
+        for k in 0..(2 + rng.below(3)) {
+            peaks.push(((base + k as f64 * (NEUTRON as f64) / z as f64) as f32, it as f32));
+            it *= 0.3 + rng.unit() * 0.6;
+        }
+    }
+    finish_raw(peaks, labels)
+}
+
 fn gen_proc(rng: &mut Rng, quick: bool, emit: &mut dyn FnMut(Case)) {
     let all18 = builtin(&Plex::T18);
     // ---- directed: every built-in plex x {descending, ascending, equal} x precursor charge {none, 2} x
@@ -745,60 +1067,7 @@ fn gen_proc(rng: &mut Rng, quick: bool, emit: &mut dyn FnMut(Case)) {
         let user = matches!(plex, Plex::User(_));
         let labels = builtin(&plex);
         let pattern = rng.below(4);
-        let mut aims: Vec<f32> = labels.clone();
-        if !user && rng.chance(1, 2) {
-            aims = all18.clone();
-        }
-        let n = aims.len();
-        let mut peaks: Vec<(f32, f32)> = Vec::new();
-        let mut reporters: Vec<(f32, f32)> = Vec::new();
-        for (i, &l) in aims.iter().enumerate() {
-            if rng.chance(1, 8) {
-                continue;
-            }
-            let off = (rng.unit() * 30.0 - 15.0) * 1.0e-6;
-            let mz = (l as f64 * (1.0 + off)) as f32;
-            let it = pattern_intensity(pattern, i, n, rng);
-            reporters.push((mz, it));
-            peaks.push((mz, it));
-            if rng.chance(1, 6) {
-                // a second peak in the same window
-                let off2 = (rng.unit() * 32.0 - 16.0) * 1.0e-6;
-                peaks.push(((l as f64 * (1.0 + off2)) as f32, it * *rng.pick(&[0.5f32, 1.0, 2.0])));
-            }
-            if rng.chance(1, 6) {
-                // just outside the window
-                let off3 = (24.0 + rng.unit() * 20.0) * 1.0e-6 * if rng.chance(1, 2) { 1.0 } else { -1.0 };
-                peaks.push(((l as f64 * (1.0 + off3)) as f32, it * *rng.pick(&[0.5f32, 1.0, 3.0])));
-            }
-        }
-        // neighbours one neutron/z above / below reporter peaks, smaller / equal / larger
-        for &(mz, it) in &reporters {
-            if rng.chance(1, 3) {
-                let z = 1 + rng.below(2);
-                let sgn = if rng.chance(1, 2) { 1.0 } else { -1.0 };
-                let jitter = (rng.unit() * 8.0 - 4.0) * 1.0e-6;
-                let m2 = ((mz as f64 + sgn * (NEUTRON as f64) / z as f64) * (1.0 + jitter)) as f32;
-                peaks.push((m2, it * *rng.pick(&[0.25f32, 0.5, 1.0, 2.0, 4.0])));
-            }
-        }
-        // the stretch right above the heaviest channel (first m/z that are NOT exempt)
-        if let Some(mx) = labels.iter().copied().reduce(f32::max) {
-            for _ in 0..rng.below(4) {
-                peaks.push(((mx as f64 * (1.0 + 23.0e-6) + rng.unit() * 1.2) as f32, rand_intensity(rng)));
-            }
-        }
-        // peptide-fragment isotope clusters above the reporter region
-        for _ in 0..rng.below(5) {
-            let base = 180.0 + rng.unit() * 1200.0;
-            let z = 1 + rng.below(3);
-            let mut it = 100.0 + rng.unit() * 5000.0;
-            for k in 0..(2 + rng.below(3)) {
-                peaks.push(((base + k as f64 * (NEUTRON as f64) / z as f64) as f32, it as f32));
-                it *= 0.3 + rng.unit() * 0.6;
-            }
-        }
-        let peaks = finish_raw(peaks, &labels);
+        let peaks = rand_raw_peaks(rng, &labels, user, pattern, &all18);
         let np = peaks.len();
         let (level, raw_level) = match rng.below(16) {
             0 => (3, 2),
@@ -831,9 +1100,215 @@ fn gen_proc(rng: &mut Rng, quick: bool, emit: &mut dyn FnMut(Case)) {
     }
 }
 
+// ------------------------------------------------------------------------------------------ tmtrun gen
+
+fn scan_id(rng: &mut Rng, n: usize) -> String {
+    match rng.below(6) {
+        0 => format!("controllerType=0 controllerNumber=1 scan={n}"),
+        1 => format!("scan={n}"),
+        2 => format!("{n}"),
+        3 => format!("index={n}"),
+        4 => format!("a&b<c>\"q'{n}"),
+        _ => format!("merged={n} frame=1 scanStart=2 scanEnd=3"),
+    }
+}
+
+fn rand_inj(rng: &mut Rng) -> f32 {
+    rng.below(30000) as f32 / 128.0 + 0.25
+}
+
+fn rand_noise(rng: &mut Rng, n: usize) -> Vec<f32> {
+    let len = match rng.below(6) {
+        0 => n.saturating_sub(2),
+        _ => n,
+    };
+    let flat = rng.chance(1, 3);
+    let c = *rng.pick(&[0.5f32, 2.0, 4.0, 10.0]);
+    (0..len).map(|_| if flat { c } else { (0.5 + rng.unit() * 40.0) as f32 }).collect()
+}
+
+fn gen_run(rng: &mut Rng, quick: bool, emit: &mut dyn FnMut(Case)) {
+    let all18 = builtin(&Plex::T18);
+    let one_per_channel = |pattern: usize, rng: &mut Rng, labels: &[f32]| -> Vec<(f32, f32)> {
+        let n = all18.len();
+        finish_raw(all18.iter().enumerate().map(|(i, &l)| (l, pattern_intensity(pattern, i, n, rng))).collect(), labels)
+    };
+    // ---- directed: every built-in plex through the real runner, MS2 quantification, deisotoping on, one peak on each
+    //      of the 18 positions (descending: each is a less intense +1 neutron partner of the channel two below)
+    for plex in [Plex::T6, Plex::T10, Plex::T11, Plex::T16, Plex::T18] {
+        let labels = builtin(&plex);
+        for pattern in 0..3 {
+            let peaks = one_per_channel(pattern, rng, &labels);
+            let ms2 = RSpec {
+                level: 2,
+                id: "controllerType=0 controllerNumber=1 scan=2".into(),
+                inj: 11.5,
+                precs: vec![RPrec { mz: 612.25, charge: Some(if pattern == 1 { 3 } else { 2 }), sref: Some("scan=1".into()) }],
+                peaks,
+                noise: vec![],
+            };
+            emit(Case::new(run_request(&plex, 2, false, true, 150, 1, &[vec![ms2]]))
+                .tag("run:directed-ms2-one-peak-per-channel"));
+        }
+    }
+    // ---- directed: MS3 keyed by the FIRST precursor's reference; same / different / missing / absent references;
+    //      MS3 before its MS2; MS2 without MS3; precursor with selected-ion m/z 0 (not pushed by the reader);
+    //      spectrum without any reporter peak (still a row, all zeros)
+    {
+        let labels = builtin(&Plex::T16);
+        let pk = |rng: &mut Rng, pattern: usize| one_per_channel(pattern, rng, &labels);
+        let prec = |mz: f32, r: Option<&str>| RPrec { mz, charge: Some(2), sref: r.map(|x| x.to_string()) };
+        let f0 = vec![
+            RSpec { level: 3, id: "scan=5".into(), inj: 1.0, precs: vec![prec(500.5, Some("scan=4")), prec(300.25, Some("scan=1"))], peaks: pk(rng, 0), noise: vec![] },
+            RSpec { level: 1, id: "scan=1".into(), inj: 2.0, precs: vec![], peaks: vec![(400.0, 9.0), (401.0, 3.0)], noise: vec![] },
+            RSpec { level: 2, id: "scan=4".into(), inj: 3.0, precs: vec![prec(500.5, Some("scan=1"))], peaks: pk(rng, 1), noise: vec![] },
+            RSpec { level: 3, id: "scan=6".into(), inj: 4.0, precs: vec![prec(500.5, Some("scan=4"))], peaks: pk(rng, 1), noise: vec![] },
+            RSpec { level: 3, id: "scan=7".into(), inj: 5.0, precs: vec![prec(500.5, Some("scan=999"))], peaks: pk(rng, 2), noise: vec![] },
+            RSpec { level: 3, id: "scan=8".into(), inj: 6.0, precs: vec![prec(500.5, None)], peaks: pk(rng, 0), noise: vec![] },
+            RSpec { level: 3, id: "scan=9".into(), inj: 7.0, precs: vec![], peaks: pk(rng, 0), noise: vec![] },
+            RSpec { level: 3, id: "scan=10".into(), inj: 8.0, precs: vec![prec(0.0, Some("dropped")), prec(450.5, Some("a&b<c>\"q'"))], peaks: pk(rng, 0), noise: vec![] },
+            RSpec { level: 2, id: "scan=11".into(), inj: 9.0, precs: vec![prec(700.5, Some("scan=1"))], peaks: vec![(300.125, 50.0), (301.1284, 20.0), (755.5, 70.0)], noise: vec![] },
+            RSpec { level: 3, id: "scan=12".into(), inj: 10.0, precs: vec![prec(700.5, Some("scan=11"))], peaks: vec![(300.125, 50.0), (755.5, 70.0)], noise: vec![] },
+        ];
+        for level in [2usize, 3] {
+            for sn in [false, true] {
+                emit(Case::new(run_request(&Plex::T16, level, sn, true, 150, 1, &[f0.clone()])).tag("run:directed-ms3-references"));
+            }
+        }
+        // two files, batch sizes 1 and 2: file ids
+        let f1: Vec<RSpec> = f0.iter().rev().cloned().collect();
+        for batch in [1usize, 2] {
+            emit(Case::new(run_request(&Plex::T16, 3, false, true, 150, batch, &[f0.clone(), f1.clone()])).tag("run:directed-two-files"));
+        }
+    }
+    // ---- random
+    let n_cases = if quick { 220 } else { 4000 };
+    for _ in 0..n_cases {
+        let plex = if rng.chance(1, 4) {
+            rand_user_proc(rng)
+        } else {
+            match rng.below(6) {
+                0 => Plex::T6,
+                1 => Plex::T10,
+                2 => Plex::T11,
+                3 => Plex::T16,
+                _ => Plex::T18,
+            }
+        };
+        let user = matches!(plex, Plex::User(_));
+        let labels = builtin(&plex);
+        let level: usize = match rng.below(20) {
+            0 => 1,
+            1 => 4,
+            2..=11 => 2,
+            _ => 3,
+        };
+        let sn = rng.chance(2, 5);
+        let deiso = rng.chance(5, 6);
+        let nfiles = 1 + rng.below(2);
+        let batch = 1 + rng.below(3);
+        let mut files: Vec<Vec<RSpec>> = Vec::new();
+        let mut max_n = 0usize;
+        let (mut has_noise, mut shared_ref, mut missing_ref, mut no_ref, mut at_level) = (false, false, false, false, 0usize);
+        for _ in 0..nfiles {
+            let mut specs: Vec<RSpec> = Vec::new();
+            let mut scan = 1usize;
+            let mut ms2_ids: Vec<String> = Vec::new();
+            for _ in 0..rng.below(4) {
+                // one cycle: MS1?, MS2, 0-3 MS3
+                let ms1_id = scan_id(rng, scan);
+                scan += 1;
+                if rng.chance(1, 2) {
+                    specs.push(RSpec { level: 1, id: ms1_id.clone(), inj: rand_inj(rng), precs: vec![], peaks: vec![(400.25, 10.0), (500.5, 20.0)], noise: vec![] });
+                }
+                let ms2_id = scan_id(rng, scan);
+                scan += 1;
+                ms2_ids.push(ms2_id.clone());
+                let mk = |rng: &mut Rng, level: u8, id: String, precs: Vec<RPrec>| {
+                    let pattern = rng.below(4);
+                    let peaks = rand_raw_peaks(rng, &labels, user, pattern, &all18);
+                    let noise = if rng.chance(1, 2) { rand_noise(rng, peaks.len()) } else { vec![] };
+                    RSpec { level, id, inj: rand_inj(rng), precs, peaks, noise }
+                };
+                let z = |rng: &mut Rng| match rng.below(4) {
+                    0 => None,
+                    k => Some(1 + k as u8),
+                };
+                let p2 = RPrec { mz: (400.0 + rng.unit() * 800.0) as f32, charge: z(rng), sref: if rng.chance(3, 4) { Some(ms1_id.clone()) } else { None } };
+                specs.push(mk(rng, 2, ms2_id.clone(), vec![p2]));
+                for _ in 0..rng.below(4) {
+                    let id = scan_id(rng, scan);
+                    scan += 1;
+                    let mut precs = Vec::new();
+                    match rng.below(8) {
+                        0 => {
+                            no_ref = true; // no precursor at all
+                        }
+                        1 => {
+                            no_ref = true; // precursor without spectrumRef
+                            precs.push(RPrec { mz: 500.5, charge: z(rng), sref: None });
+                        }
+                        2 => {
+                            missing_ref = true; // reference to a scan that is not in the file
+                            precs.push(RPrec { mz: 500.5, charge: z(rng), sref: Some(scan_id(rng, 9000 + scan)) });
+                        }
+                        3 => {
+                            // a precursor with m/z 0 in front: the reader does not push it
+                            precs.push(RPrec { mz: 0.0, charge: None, sref: Some("zero".into()) });
+                            precs.push(RPrec { mz: 500.5, charge: z(rng), sref: Some(ms2_id.clone()) });
+                        }
+                        4 => {
+                            // an earlier MS2 (shared by several MS3)
+                            shared_ref = true;
+                            precs.push(RPrec { mz: 500.5, charge: z(rng), sref: Some(rng.pick(&ms2_ids).clone()) });
+                            precs.push(RPrec { mz: 300.25, charge: z(rng), sref: Some(ms1_id.clone()) });
+                        }
+                        _ => {
+                            precs.push(RPrec { mz: (400.0 + rng.unit() * 800.0) as f32, charge: z(rng), sref: Some(ms2_id.clone()) });
+                            if rng.chance(1, 3) {
+                                precs.push(RPrec { mz: 350.5, charge: z(rng), sref: Some(ms1_id.clone()) });
+                            }
+                        }
+                    }
+                    specs.push(mk(rng, 3, id, precs));
+                }
+            }
+            // MS3 before its MS2, arbitrary interleaving
+            if rng.chance(1, 3) {
+                rng.shuffle(&mut specs);
+            }
+            for s in &specs {
+                max_n = max_n.max(s.peaks.len());
+                has_noise |= !s.noise.is_empty() && s.level as usize == level;
+                at_level += (s.level as usize == level && level != 1) as usize;
+            }
+            files.push(specs);
+        }
+        let small = max_n >= 2 && rng.chance(1, 12);
+        let max_peaks = if small { 1 + rng.below(max_n - 1) } else { max_n + rng.below(40) };
+        emit(Case::new(run_request(&plex, level, sn, deiso, max_peaks, batch, &files))
+            .tag(if user { "run:user" } else { "run:builtin" })
+            .tag(match level {
+                2 => "run:level2",
+                3 => "run:level3",
+                _ => "run:level-other",
+            })
+            .tag_if(sn && has_noise, "run:sn-applied")
+            .tag_if(sn && !has_noise, "run:sn-without-noise")
+            .tag_if(deiso, "run:deisotope-on")
+            .tag_if(shared_ref, "run:shared-ms2-reference")
+            .tag_if(missing_ref, "run:reference-to-absent-scan")
+            .tag_if(no_ref, "run:ms3-without-reference")
+            .tag_if(nfiles > 1, "run:two-files")
+            .tag_if(small, "run:small-max-peaks")
+            .nontrivial(at_level >= 1 && !small));
+    }
+}
+
 pub fn gen(rng: &mut Rng, tier: Tier, emit: &mut dyn FnMut(Case)) {
     let quick = tier == Tier::Quick;
     gen_proc(rng, quick, emit);
+    gen_run(rng, quick, emit);
     emit(Case::new("tmtconsts".to_string()).tag("consts"));
 
     // ---------------------------------------------------------------- tmtguard
@@ -979,6 +1454,31 @@ pub fn gen(rng: &mut Rng, tier: Tier, emit: &mut dyn FnMut(Case)) {
                     .nontrivial(mask & 0b001110 != 0 && mask & 0b110001 != 0));
             }
         }
+    }
+    // spectra without any reporter peak (peaks only outside every window / no peaks at all) still give a row of zeros;
+    // and a user-defined plex that lists a built-in table must behave like the built-in plex
+    for level in [2u8, 3] {
+        let none_in = Spec {
+            level,
+            id: "no-reporters".into(),
+            file_id: 3,
+            inj: 4.5,
+            precursors: vec![Some("parent".into()), Some("other".into())],
+            peaks: vec![(120.5 - PROTON, 10.0), (300.25 - PROTON, 99.0), (755.5 - PROTON, 5.0)],
+        };
+        let empty = Spec { level, id: "empty".into(), file_id: 3, inj: 5.5, precursors: vec![Some("parent2".into())], peaks: vec![] };
+        for plex in [Plex::T6, Plex::T18, Plex::User(builtin(&Plex::T16))] {
+            emit(Case::new(tmt_request(&plex, (-20.0, 20.0), level, &[none_in.clone(), empty.clone()]))
+                .tag("directed:no-reporter-peaks")
+                .nontrivial(false));
+        }
+    }
+    for plex in [Plex::T6, Plex::T10, Plex::T11, Plex::T16, Plex::T18] {
+        let all = builtin(&Plex::T18);
+        let mut peaks: Vec<(f32, f32)> = all.iter().enumerate().map(|(i, &l)| (l - PROTON, (i + 1) as f32)).collect();
+        peaks.sort_by(|a, b| a.0.total_cmp(&b.0));
+        let s = Spec { level: 2, id: "scan=7".into(), file_id: 1, inj: 12.5, precursors: vec![], peaks };
+        emit(Case::new(tmt_request(&Plex::User(builtin(&plex)), (-20.0, 20.0), 2, &[s])).tag("directed:user-copy-of-builtin"));
     }
     // negative / NaN intensities (outside the property's domain: the spec answers `na`, the model must agree)
     for &bad in &[-1.0f32, -0.0, f32::NAN, f32::INFINITY] {
